@@ -94,3 +94,20 @@ Proof.
     destruct (D cols) as [Hall|Hex]; [|exact Hex].
     apply check_len_spec in Hall. congruence.
 Qed.
+
+(** the cloning arm of [entities!]: rectangular whatever the size expression does *)
+Theorem macro_cloned_rectangular k evals : check_len (macro_cloned k evals) = true.
+Proof.
+  unfold macro_cloned. change fact_entities_macro_evaluates_size_once with true. cbn [macro_cloned_cols].
+  apply check_len_spec. intros a b Ha Hb. apply repeat_spec in Ha, Hb. congruence.
+Qed.
+
+Theorem macro_cloned_is_a_batch k evals : batch_new (macro_cloned k evals) = Some (component_len (macro_cloned k evals)).
+Proof.
+  unfold batch_new. change fact_batch_new_asserts_check_len_first with true. cbv iota.
+  rewrite macro_cloned_rectangular. reflexivity.
+Qed.
+
+(** finding F10 as it was: the size expression evaluated once per column *)
+Lemma macro_cloned_ragged_before : check_len (macro_cloned_cols false 2 [4; 1]) = false.
+Proof. reflexivity. Qed.
